@@ -351,7 +351,10 @@ func (fgen *funcGen) irCallInst(new ir.Instruction, old *ast.CallInst) error {
 	if oldFuncAttrs := old.FuncAttrs(); len(oldFuncAttrs) > 0 {
 		inst.FuncAttrs = make([]ir.FuncAttribute, len(oldFuncAttrs))
 		for i, oldFuncAttr := range oldFuncAttrs {
-			funcAttr := fgen.gen.irFuncAttribute(oldFuncAttr)
+			funcAttr, err := fgen.gen.irFuncAttribute(oldFuncAttr)
+			if err != nil {
+				return errors.WithStack(err)
+			}
 			inst.FuncAttrs[i] = funcAttr
 		}
 	}
